@@ -9,7 +9,7 @@
    consumed (POSTCONDITION AllConsumed); each event's verdict (ok / skip / a
    diagnosis) goes to the verdict file, so that one rejected event never hides
    the rest of the trace. *)
-EXTENDS SemOverflow, AsCodedOverflow, SemScaled, SemRounding, AsCodedRounding, TLC, TLCExt, Json, IOUtils, CSV
+EXTENDS SemOverflow, AsCodedOverflow, SemScaled, SemRounding, AsCodedRounding, SemElastic, TLC, TLCExt, Json, IOUtils, CSV
 
 Tr == ndJsonDeserialize(IOEnv.TRACE)
 Insts == ndJsonDeserialize(IOEnv.INSTS)
@@ -27,6 +27,10 @@ Verdict0(e, i) ==
       [] e.e = "ScIdent" -> JudgeScIdent(e, i)
       [] e.e = "ScConv" -> JudgeScConv(e, i)
       [] e.e = "ScRoundTrip" -> JudgeScRoundTrip(e, i)
+      [] e.e = "ElBin" -> JudgeElBin(e, i)
+      [] e.e = "ElUn" -> JudgeElUn(e, i)
+      [] e.e = "ElShift" -> JudgeElShift(e, i)
+      [] e.e = "ElLimits" -> JudgeElLimits(e, i)
       [] e.e = "RDiv" -> JudgeRDiv(e, i)
       [] e.e = "ROp" -> JudgeROp(e, i)
       [] e.e = "RConv" -> JudgeRConv(e, i)
@@ -45,6 +49,7 @@ AsCoded(e, i) ==
            LET x == TV(i.lt, J(e.l)) IN MatchesAsCoded(AsCodedConv(x, i.rt), i.tag, e.out, J(e.res), CConv(x, i.rt))
       [] e.e = "RDiv" ->
            MatchesAsCodedRound(AsCodedRoundDiv(i.tag, TV(AsIntT(i.lt), J(e.l)), TV(AsIntT(i.rt), J(e.r))), e.out, J(e.res))
+      [] e.e = "ElBin" -> AsCodedElBin(e, i)
       [] OTHER -> FALSE
 
 \* The verdict of event k is kept in TLC register k (re-evaluating a step is idempotent); all
